@@ -84,6 +84,7 @@ type PathResult struct {
 	Segs          int
 	Threads       int
 	UsesStub      bool
+	UsesUninterp  bool // a library function modelled as an uninterpreted function (xxhash) was evaluated
 }
 
 type HarnessResult struct {
@@ -107,6 +108,7 @@ type HarnessResult struct {
 	Segs          int                          `json:"thread_segments"`
 	MaxThreads    int                          `json:"max_threads"`
 	UsesStub      bool                         `json:"uses_harness_stub"`
+	UsesUninterp  bool                         `json:"uses_uninterpreted_model"`
 	Queries       int                          `json:"solver_queries"`
 	SolverTime    float64                      `json:"solver_time_s"`
 	Wall          float64                      `json:"wall_s"`
@@ -423,6 +425,9 @@ func (ex *Explorer) merge(res *HarnessResult, pr *PathResult) {
 	res.Segs += pr.Segs
 	if pr.UsesStub {
 		res.UsesStub = true
+	}
+	if pr.UsesUninterp {
+		res.UsesUninterp = true
 	}
 	if pr.Threads > res.MaxThreads {
 		res.MaxThreads = pr.Threads
